@@ -161,11 +161,19 @@ def _where(exc):
     return name
 
 
+class Hang(BaseException):
+    """raised by the watchdog timer of the sequential clause"""
+
+
+def _alarm(signum, frame):
+    raise Hang()
+
+
 def cache_get(cache, sid, tokens):
     """-> dict(res, s, exc, where)"""
     try:
         got = cache[bytearray(sid.encode())]
-    except sched.SchedAbort:
+    except (sched.SchedAbort, Hang):
         raise
     except KeyError as e:
         w = _where(e)
@@ -180,7 +188,7 @@ def cache_get(cache, sid, tokens):
 def cache_set(cache, sid, sess):
     try:
         cache[bytearray(sid.encode())] = sess
-    except sched.SchedAbort:
+    except (sched.SchedAbort, Hang):
         raise
     except BaseException as e:
         return {"res": "err", "exc": type(e).__name__, "where": _where(e)}
@@ -243,10 +251,39 @@ def seq_histories(L, nid, dts, inv):
                         yield h[:pos] + [("i", si, 0)] + h[pos:]
 
 
+class SelfDeadlock(Exception):
+    pass
+
+
+class SeqLock(object):
+    """lock for single-threaded runs: acquiring it twice would block forever - raise instead"""
+    def __init__(self):
+        self.held = False
+
+    def acquire(self, blocking=True, timeout=-1):
+        if self.held:
+            raise SelfDeadlock("lock acquired while already held: the operation would never return")
+        self.held = True
+        return True
+
+    def release(self):
+        if not self.held:
+            raise RuntimeError("release unlocked lock")
+        self.held = False
+
+    def __enter__(self):
+        return self.acquire()
+
+    def __exit__(self, *a):
+        self.release()
+        return False
+
+
 def run_seq(maxEntries, maxAge, hist):
     """execute one history on the real class; returns the trace (list of events)"""
     from tlslite.sessioncache import SessionCache
     cache = SessionCache(maxEntries, maxAge)
+    cache.lock = SeqLock()
     tokens = {}
     sess_of_op = {}
     keep = []
@@ -326,15 +363,30 @@ def classify_cache(trace, k):
 def _seq_worker(job):
     """enumerate + execute a slice of the histories and let TLC judge them"""
     (label, maxEntries, maxAge, L, nid, dts, inv, part, nparts, outdir) = job
+    import signal
     CTX.reset("c18-seq")
     traces, hists = [], []
+    hangs = 0
+    signal.signal(signal.SIGALRM, _alarm)
     for n, h in enumerate(seq_histories(L, nid, dts, inv)):
         if n % nparts != part:
             continue
-        traces.append(run_seq(maxEntries, maxAge, h))
+        signal.setitimer(signal.ITIMER_REAL, 5.0)        # watchdog: an operation that loops forever
+        try:
+            tr = run_seq(maxEntries, maxAge, h)
+            signal.setitimer(signal.ITIMER_REAL, 0)
+        except Hang:
+            hangs += 1
+            tr = [{"ev": "CFG", "maxEntries": maxEntries, "maxAge": maxAge},
+                  {"ev": "op", "op": "get", "id": "?", "s": 0, "now": 0, "res": "err", "size": 0,
+                   "exc": "operation did not return within 5 s", "where": "history " + hist_str(h)}]
+        traces.append(tr)
         hists.append(h)
+        if hangs >= 2:
+            break                                        # the remaining histories are not executed
+    signal.setitimer(signal.ITIMER_REAL, 0)
     if not traces:
-        return {"label": label, "n": 0, "rej": [], "tlc": None, "nontrivial": 0, "keys": []}
+        return {"label": label, "n": 0, "rej": [], "tlc": None, "nontrivial": 0, "hangs": 0}
     r, rej = tlc.validate_traces("trace/SessionCacheTrace.tla", "cfg/SessionCache_trace.cfg", traces, outdir,
                                  batch_name="%s-p%d" % (label, part), timeout=1500, heap="2g")
     rejected = []
@@ -354,7 +406,7 @@ def _seq_worker(job):
         os.remove(os.path.join(outdir, "%s-p%d.json" % (label, part)))
     except OSError:
         pass
-    return {"label": label, "n": len(traces), "rej": rejected, "nontrivial": nontriv,
+    return {"label": label, "n": len(traces), "rej": rejected, "nontrivial": nontriv, "hangs": hangs,
             "tlc": {"distinct": r.distinct, "generated": r.generated, "wall": r.wall, "cmd": r.cmd,
                     "error": r.error, "violated": r.violated},
             "sample": {"params": [maxEntries, maxAge], "history": hist_str(hists[len(hists) // 2]),
@@ -371,9 +423,8 @@ def seq_jobs(tier, outdir):
         plan = [("m2a1", 2, 1, 6, 2, (0, 1, 2), False, 24), ("m3a1", 3, 1, 6, 3, (0, 2), False, 12),
                 ("m2a1-5", 2, 1, 5, 3, (0, 1, 2), False, 6), ("m3a1-5", 3, 1, 5, 3, (0, 1, 2), False, 6),
                 ("m3a2", 3, 2, 5, 3, (0, 1, 2), False, 6), ("m1a1", 1, 1, 4, 2, (0, 1, 2), False, 1),
-                ("m2a2", 2, 2, 5, 3, (0, 1, 3), False, 6),
-                ("inv-m3a1", 3, 1, 5, 3, (0, 1, 2), True, 24), ("inv-m2a2", 2, 2, 4, 3, (0, 1, 2), True, 2),
-                ("m4a1", 4, 1, 6, 4, (0, 2), False, 16), ("m4a2", 4, 2, 5, 4, (0, 1, 3), False, 8)]
+                ("inv-m3a1", 3, 1, 5, 2, (0, 1, 2), True, 10), ("inv-m2a2", 2, 2, 4, 3, (0, 1, 2), True, 2),
+                ("m4a1", 4, 1, 5, 4, (0, 1, 2), False, 8), ("m4a2", 4, 2, 5, 4, (0, 1, 3), False, 8)]
     for (label, me, ma, L, nid, dts, inv, nparts) in plan:
         for p in range(nparts):
             jobs.append((label, me, ma, L, nid, dts, inv, p, nparts, outdir))
@@ -798,14 +849,17 @@ def stress_cache(seconds, nthreads=8, logged_rounds=100):
     old = sys.getswitchinterval()
     sys.setswitchinterval(1e-5)
     try:
-        ths = [threading.Thread(target=body, args=(i,)) for i in range(nthreads)]
+        ths = [threading.Thread(target=body, args=(i,), daemon=True) for i in range(nthreads)]
         for t in ths:
             t.start()
         for t in ths:
-            t.join()
+            t.join(seconds + 20)
     finally:
         sys.setswitchinterval(old)
-    allev = [e for lg in logs for e in lg]
+    allev = [e for lg in logs for e in list(lg)]
+    if any(t.is_alive() for t in ths):
+        allev.append({"ev": "sget", "id": "-", "s": 0, "res": "err", "size": 0, "exc": "stress threads did not finish",
+                      "where": "deadlock or endless loop"})
     tr = [{"ev": "CFG", "maxEntries": 16, "maxAge": 10 ** 6}]
     tr += [e for e in allev if e["ev"] == "sset"] + [e for e in allev if e["ev"] == "sget"]
     return tr, sum(count) * 4
@@ -829,14 +883,17 @@ def stress_rsa(nthreads=8, per=12):
     old = sys.getswitchinterval()
     sys.setswitchinterval(1e-5)
     try:
-        ths = [threading.Thread(target=body, args=(i,)) for i in range(nthreads)]
+        ths = [threading.Thread(target=body, args=(i,), daemon=True) for i in range(nthreads)]
         for t in ths:
             t.start()
         for t in ths:
-            t.join()
+            t.join(60)
     finally:
         sys.setswitchinterval(old)
-    return [cfg] + [e for lg in logs for e in lg]
+    tr = [cfg] + [e for lg in logs for e in list(lg)]
+    if any(t.is_alive() for t in ths):
+        tr.append({"ev": "sret", "m": [0], "res": "err", "out": [], "exp": [0], "exc": "stress threads did not finish"})
+    return tr
 
 
 # ====================================================================== model checking
@@ -955,7 +1012,7 @@ def run(tier):
         tpool = ThreadPoolExecutor(max_workers=12)      # after the fork of the pool workers
         futs, dup = run_models(rep, tier, tpool)
         # ---- 3. thread experiments are submitted first (longest jobs), the sequential clause shares the pool
-        cap = 2500 if tier == "quick" else 40000
+        cap = 2500 if tier == "quick" else 30000
         nrand = 150 if tier == "quick" else 1500
 
         def thread_jobs(scs_cache, with_rest=True):
@@ -1014,6 +1071,7 @@ def run(tier):
         for i in range(nontriv_seq):
             rep.distinct.add(("seq", i))          # histories are enumerated without repetition
         rep.notes["sequential_histories"] = seq_total
+        rep.notes["sequential_batches_cut_short_by_hangs"] = sum(1 for r in seq_res if r.get("hangs"))
         rep.notes["sequential_rejected"] = {"%s / %s" % k: v["n"] for k, v in sorted(groups.items())}
         for (shape, obs), g in sorted(groups.items()):
             ex = g["ex"]
@@ -1133,10 +1191,22 @@ def run(tier):
     return rep.finish()
 
 
+class _MiniRep(object):
+    """enough of evidence.Report for validate(); does not touch the replay directory"""
+    def __init__(self):
+        self.outdir = os.path.join(evidence.OUT, "C18", "replay-run")
+        os.makedirs(self.outdir, exist_ok=True)
+        self.machinery_errors = []
+
+    def add_tlc(self, r, what=""):
+        if r.error:
+            self.machinery_errors.append("%s: %s" % (what, r.error))
+
+
 def replay(path):
     d = json.load(open(path))
     det = d["detail"]
-    rep = evidence.Report("C18", "quick")
+    rep = _MiniRep()
     tpool = ThreadPoolExecutor(max_workers=2)
     if det.get("kind") == "seq":
         hist = [tuple(x) for x in det["hist"]]
@@ -1157,6 +1227,9 @@ def replay(path):
     rej = validate(rep, kind, [tr], "replay", tpool, nb=1)
     for e in tr:
         print("  ", json.dumps(e))
+    if rep.machinery_errors:
+        print("MACHINERY-ERROR:", rep.machinery_errors[0][:1500])
+        return 2
     if rej:
         k = rej[0]
         print("REJECTED by the trace spec at event %d: %s" % (k + 1, json.dumps(tr[k]) if k < len(tr) else None))
